@@ -216,6 +216,19 @@ func (e *c09Env) exec(tc *c09Case) (oracle, note string) {
 		res = doGRPCRaw(m, tc.Verb, tc.Path, tc.Query, ct, hdr, rb)
 	case "ws":
 		res = doWS(m, tc.Path, tc.Query, hdr, body, sc)
+	case "ws-bad-handshake":
+		// a hijack-capable connection and an upgrade request that the WebSocket handshake refuses:
+		// the headers of the case replace (value) or remove ("-") the good ones
+		res = doWSPrep(m, tc.Path, tc.Query, nil, body, sc, func(_ *env.Conn, req *http.Request) *http.Request {
+			for _, kv := range tc.Headers {
+				if kv[1] == "-" {
+					req.Header.Del(kv[0])
+				} else {
+					req.Header.Set(kv[0], kv[1])
+				}
+			}
+			return req
+		})
 	default: // http and web go through the HTTP/1.1 entry
 		res = doHTTP(m, tc.Verb, tc.Path, tc.Query, hdr, rb)
 	}
@@ -489,6 +502,23 @@ func c09Cases(ts *tSchema, thorough bool) []c09Case {
 					hs = append(hs, extra)
 				}
 				out = append(out, c09Case{Entry: "http", Mux: "t", Verb: "GET", Path: p, Headers: hs, CL: 0})
+			}
+		}
+	}
+	// error texts of every length around the close frame's capacity (125 bytes less the code): a
+	// client picks the length of a decode error through an unknown field name of its choosing
+	for n := 1; n <= 150; n++ {
+		msg := []byte(`{"` + strings.Repeat("k", n) + `":1}`)
+		frame := wire.WSClientFrame(true, 1, msg, [4]byte{1, 2, 3, 4})
+		for _, p := range []string{"/ws/unary", "/ws/bidi"} {
+			out = append(out, c09Case{Entry: "ws", Mux: "t", Opts: n % 4, Verb: "GET", Path: p, BodyHex: hx(frame)})
+		}
+	}
+	// handshakes that fail once the connection has been taken over
+	for _, bad := range [][2]string{{"Sec-Websocket-Key", "-"}, {"Sec-Websocket-Key", "c2hvcnQ="}, {"Sec-Websocket-Key", "not base64 !!"}, {"Sec-Websocket-Version", "12"}, {"Sec-Websocket-Version", "-"}, {"Connection", "keep-alive"}, {"Sec-Websocket-Extensions", "\x00bad"}} {
+		for _, p := range []string{"/ws/bidi", "/ws/unary", "/ws/nobody/unary/x"} {
+			for opts := 0; opts < 4; opts++ {
+				out = append(out, c09Case{Entry: "ws-bad-handshake", Mux: "t", Opts: opts, Verb: "GET", Path: p, Headers: [][2]string{bad}, CL: 0})
 			}
 		}
 	}
